@@ -108,8 +108,8 @@ deriving DecidableEq, Repr
 def Side.opp : Side → Side
   | .both => .both | .left => .right | .right => .left
 
-/-- is the (homogeneous) point on an admitted side of the directed segment (on the line counts)? -/
-def Side.admits (sd : Side) (a b : Pt) (p : HPt) : Bool :=
+/-- is the (homogeneous) point on a permitted side of the directed segment (on the line counts)? -/
+def Side.allows (sd : Side) (a b : Pt) (p : HPt) : Bool :=
   match sd with
   | .both => true
   | .left => decide (detH a b p ≥ 0)
@@ -240,7 +240,7 @@ def Feat.onBoundary (F : Feat) (p : HPt) : Bool := F.segs.any fun s => onSegH s.
 
 /-- some feature of the ideal buffer of radius `√r2` covers `p` -/
 def Feat.covered (F : Feat) (p : HPt) (r2 m2 : Q) : Bool :=
-  (F.segs.any fun s => s.side.admits s.s.p s.s.q p &&
+  (F.segs.any fun s => s.side.allows s.s.p s.s.q p &&
     (match d2Slab p s.s m2 true with | some d => d.le r2 | none => false)) ||
   (F.wedges.any fun w => (d2Pt p w.v).le r2 && w.has p)
 
